@@ -77,3 +77,16 @@ static inline void vx_step_analyze_rule(size_t i) { if (g_seq < 1000) g_seq++; g
   __CPROVER_assigns(I, g_seq, g_ar_calls, g_ar_last_at, g_ar_hit, g_ar_root, g_ar_hit_n) \
   __CPROVER_loop_invariant(I <= P_RULES && g_ar_calls == I && g_seq == I && !g_ar_root && (g_k < I ? (g_ar_hit && g_ar_hit_n == 1) : (!g_ar_hit && g_ar_hit_n == 0)) && (I >= 1 ==> g_ar_last_at == I)) \
   __CPROVER_decreases(P_RULES - I)
+
+/* ---- create_lexer: add_term_data_to_dfa(data of term I, builder on lexer_sm, index I) for every declared term, in declaration order ---- */
+bool VX_GENERATE_LEXER; enum { VX_LEXER_SM = 7 }; int g_builder_on;
+static inline void vx_builder_on(int sm) { g_builder_on = sm; }
+unsigned g_atd_calls; size16_t g_atd_last_idx; bool g_atd_hit, g_atd_ordered, g_atd_data_ok; unsigned g_atd_hit_n;
+static inline void vx_add_term_data(const struct vx_Term* t, size16_t idx) {
+  if (g_atd_calls > 0 && !(idx > g_atd_last_idx)) g_atd_ordered = 0;          /* strictly ascending indices = declaration order */
+  if (g_atd_calls < 1000) g_atd_calls++; g_atd_last_idx = idx;
+  if (idx == g_k) { g_atd_hit = 1; if (g_atd_hit_n < 1000) g_atd_hit_n++; g_atd_data_ok = (t == &term_tuple.t[g_k]) && g_builder_on == VX_LEXER_SM; } }
+#define VX_LEXER_LOOP \
+  __CPROVER_assigns(I, g_atd_calls, g_atd_last_idx, g_atd_hit, g_atd_ordered, g_atd_data_ok, g_atd_hit_n) \
+  __CPROVER_loop_invariant(I <= P_TERMS && g_atd_calls == I && g_atd_ordered && (I >= 1 ==> g_atd_last_idx == I - 1) && (g_k < I ? (g_atd_hit && g_atd_hit_n == 1 && g_atd_data_ok) : (!g_atd_hit && g_atd_hit_n == 0))) \
+  __CPROVER_decreases(P_TERMS - I)
